@@ -66,6 +66,8 @@ pub fn on_server_message(sim: &mut Sim, c: usize, ch: usize, bytes: &[u8], id: u
         // A pre-spawn mapping gives the target a new client identity as well: references sent before
         // it keep pointing at the placeholder the client had reserved (same family as F17).
         let remapped: Vec<u64> = msg.mappings.iter().map(|(s, _)| *s).collect();
+        // (Also for targets the client only knew as a placeholder: the despawn record removes the
+        // placeholder mapping, and a later re-spawn of the target gets a new client entity.)
         for d in msg.despawns.iter().chain(remapped.iter()) {
             for s in sim.slots.iter().flatten() {
                 let comps = read_comps(sim.server.world(), *s);
@@ -106,15 +108,35 @@ pub fn on_server_message(sim: &mut Sim, c: usize, ch: usize, bytes: &[u8], id: u
             first
         };
         if first_check {
-            if let Some(Some(vis)) = sim.snaps.get(&t).map(|s| s.vis[c].clone()) {
-                let got: BTreeSet<u64> = msg.changes.iter().map(|(e, _)| *e).collect();
-                if !vis.is_subset(&got) {
-                    let prop = if restarted(sim) { "C09" } else { "C07" };
-                    sim.violate(
-                        prop,
-                        "first_update_incomplete",
-                        format!("first update message of the session of client {c} (tick {t}) lacks visible entities: expected {vis:x?}, got {got:x?}"),
-                    );
+            if let Some(snap) = sim.snaps.get(&t).cloned() {
+                if let Some(vis) = snap.vis[c].clone() {
+                    let got: BTreeMap<u64, &Vec<CompRec>> = msg.changes.iter().map(|(e, c)| (*e, c)).collect();
+                    let mut problems = vec![];
+                    for e in &vis {
+                        match got.get(e) {
+                            None => problems.push(format!("entity {e:#x} missing")),
+                            Some(comps) => {
+                                for (k, val) in &snap.ents[e] {
+                                    if !comps.iter().any(|r| r.kind == *k && (r.val == *val || k.is_entity())) {
+                                        problems.push(format!("entity {e:#x} lacks {k:?} = {val:?}"));
+                                    }
+                                }
+                            }
+                        }
+                    }
+                    if !problems.is_empty() {
+                        let (after_crash, late_auth) = {
+                            let s = sim.clients[c].sess.as_ref().unwrap();
+                            (s.after_crash, sim.prof.app.auth != 1)
+                        };
+                        let detail = format!("first update message of the session of client {c} (tick {t}) does not carry the complete visible state: {}", problems.join(", "));
+                        if after_crash {
+                            sim.violate("C09", "first_update_incomplete", detail.clone());
+                        }
+                        if late_auth || !after_crash {
+                            sim.violate("C07", "first_update_incomplete", detail);
+                        }
+                    }
                 }
             }
         }
@@ -137,13 +159,27 @@ pub fn on_server_message(sim: &mut Sim, c: usize, ch: usize, bytes: &[u8], id: u
         }
         let now = sim.now_ms;
         let sess = sim.clients[c].sess.as_mut().unwrap();
+        // The named update tick must not lie in the future (an update message that was never sent) and
+        // must cover every update message that touched one of the message's entities.
         let expect_ut = sess.upd_sent.last().map(|(t, _)| *t).unwrap_or(0);
-        let bad_ut = msg.update_tick != expect_ut;
+        let needed = sess
+            .upd_msgs
+            .iter()
+            .filter(|u| msg.entities.iter().any(|(e, _)| u.changes.iter().any(|(x, _)| x == e) || u.removals.iter().any(|(x, _)| x == e)))
+            .map(|u| u.tick)
+            .max()
+            .unwrap_or(0);
+        let bad_ut = msg.update_tick > expect_ut || msg.update_tick < needed;
         for (e, comps) in &msg.entities {
             for r in comps {
                 if r.kind.is_entity() {
                     sess.ent_taint.insert((*e, r.kind), msg.tick);
                 }
+            }
+        }
+        for (e, comps) in &msg.entities {
+            for r in comps {
+                sess.f20_cells.remove(&(*e, r.kind));
             }
         }
         sess.mut_by_index.insert(msg.index, id);
@@ -168,7 +204,7 @@ pub fn on_server_message(sim: &mut Sim, c: usize, ch: usize, bytes: &[u8], id: u
             sim.violate(
                 "C02",
                 "mutate_update_tick",
-                format!("mutate message for tick {} names update tick {} but the last update message sent to client {c} was {expect_ut}", msg.tick, msg.update_tick),
+                format!("mutate message for tick {} names update tick {}, but the last update message sent to client {c} was {expect_ut} and its entities were last touched by the update message of tick {needed}", msg.tick, msg.update_tick),
             );
         }
         if msg.entities.is_empty() && !sim.prof.app.track {
@@ -660,6 +696,9 @@ pub fn after_client_frame(sim: &mut Sim, c: usize) {
         for se in exp.keys() {
             if !held.contains_key(se) {
                 v.push(("C03", "missing_entity", format!("client {c} lacks server entity {se:#x} replicated to it at update tick {u}")));
+                if sess.premap.contains_key(se) {
+                    v.push(("C16", "prespawn_target_missing", format!("client {c}: server entity {se:#x} was mapped to a pre-spawned entity and is replicated to the client at update tick {u}, but the client holds no entity for it")));
+                }
                 if sess.vis.contains_key(se) {
                     v.push(("C08", "visible_entity_missing", format!("client {c} lacks entity {se:#x} at update tick {u} although it was made visible to it")));
                 }
@@ -711,9 +750,12 @@ pub fn after_client_frame(sim: &mut Sim, c: usize) {
         };
         for k in VALUE_KINDS {
             if let (Some(a), Some(b)) = (sc.get(&k), comps.get(&k)) {
-                if a != b && !sim.no_taint && sess.f20_ents.contains(se) {
+                if a != b && !sim.no_taint && sess.f20_cells.contains(&(*se, k)) {
                     f20_hits += 1;
                 } else if a != b {
+                    if newly_applied.iter().any(|id| sess.muts[id].ents.iter().any(|(e, _)| e == se)) {
+                        v.push(("C10", "entity_partially_updated", format!("client {c}: entity {se:#x} was confirmed for tick {lt} by a mutate message applied in this frame but {k:?} = {b:?} instead of {a:?}")));
+                    }
                     v.push(("C02", "value_at_confirmed_tick", format!("client {c}: entity {se:#x} {k:?} = {b:?} but the server had {a:?} at its confirmed tick {lt} (update tick {u})")));
                 }
             }
@@ -994,8 +1036,18 @@ pub fn after_client_frame(sim: &mut Sim, c: usize) {
         let mut owners: BTreeMap<u64, BTreeSet<u64>> = BTreeMap::new();
         for r in w.iter_entities() {
             let e = r.id();
-            let (a, b, x, y) = (r.get::<A>(), r.get::<B>(), r.get::<X>(), r.get::<Y>());
-            for ver in [a.map(|t| t.0.ver()), b.map(|t| t.0.ver()), x.map(|t| t.0.ver()), y.map(|t| t.0.ver())].into_iter().flatten() {
+            let vers = [
+                r.get::<A>().map(|t| t.0.ver()),
+                r.get::<B>().map(|t| t.0.ver()),
+                r.get::<X>().map(|t| t.0.ver()),
+                r.get::<Y>().map(|t| t.0.ver()),
+                r.get::<S>().map(|t| t.0.ver()),
+                r.get::<Imm>().map(|t| t.0.ver()),
+                r.get::<O>().map(|t| t.0.ver()),
+                r.get::<P>().map(|t| t.0.ver()),
+                r.get::<Big>().map(|t| t.0.ver()),
+            ];
+            for ver in vers.into_iter().flatten() {
                 if let Some(o) = sim.ver_owner.get(&ver) {
                     owners.entry(*o).or_default().insert(e.to_bits());
                 }
@@ -1026,7 +1078,17 @@ pub fn after_client_frame(sim: &mut Sim, c: usize) {
         sess.last_conf.insert(*cc, *lt);
     }
     sess.sev_seen.extend(seen_now);
+    let after_crash = sess.after_crash;
+    let late_auth = sim.prof.app.auth != 1;
     for (p, o, d) in v {
+        // The same observation can break several properties: a new session that does not converge
+        // like a first connection (C09), an incomplete state after a late authorisation (C07).
+        if after_crash && matches!(p, "C01" | "C02" | "C03") {
+            sim.violate("C09", o, format!("[session after a disconnect / restart] {d}"));
+        }
+        if late_auth && p == "C03" && matches!(o, "missing_entity" | "component_presence") {
+            sim.violate("C07", o, format!("[client authorised after connecting] {d}"));
+        }
         sim.violate(p, o, d);
     }
 }
@@ -1080,6 +1142,7 @@ pub fn end_of_run(sim: &mut Sim) {
         }
         let (_u, held, _tc, _ts) = client_view(&sim.clients[c].app);
         let mut expected = 0usize;
+        let first_of_client = v.len();
         for (i, s) in sim.slots.iter().enumerate() {
             let Some(e) = *s else { continue };
             let bits = e.to_bits();
@@ -1126,7 +1189,7 @@ pub fn end_of_run(sim: &mut Sim) {
                         let (Some(a), Some(b)) = (a, b) else { continue };
                         match k {
                             Kind::P => {
-                                if a != b && !sim.no_taint && sess.f20_ents.contains(&bits) {
+                                if a != b && !sim.no_taint && sess.f20_cells.contains(&(bits, k)) {
                                     *sim.stats.probes.entry("known_F20_hit".into()).or_insert(0) += 1;
                                 } else if a != b {
                                     let Val::Ver(sv) = a else { continue };
@@ -1162,7 +1225,7 @@ pub fn end_of_run(sim: &mut Sim) {
                                 }
                             }
                             _ => {
-                                if a != b && !sim.no_taint && sess.f20_ents.contains(&bits) {
+                                if a != b && !sim.no_taint && sess.f20_cells.contains(&(bits, k)) {
                                     *sim.stats.probes.entry("known_F20_hit".into()).or_insert(0) += 1;
                                 } else if a != b {
                                     v.push(("C01", "value", format!("client {c}: slot {i} {k:?} server={a:?} client={b:?} after quiescence (confirmed tick {lt})")));
@@ -1178,6 +1241,24 @@ pub fn end_of_run(sim: &mut Sim) {
         if n != expected {
             v.push(("C01", "entity_count", format!("client {c} has {n} replicated entities, server replicates {expected} to it")));
         }
+        // The same divergence seen from the other properties' point of view.
+        let injected_run = sim.stats.faults.contains_key("byzantine_bytes");
+        let mut extra = vec![];
+        for (p, o, d) in v[first_of_client..].iter() {
+            if *p != "C01" {
+                continue;
+            }
+            if sess.after_crash {
+                extra.push(("C09", *o, format!("[session after a disconnect / restart] {d}")));
+            }
+            if sim.prof.app.auth != 1 && matches!(*o, "missing_entity" | "entity_count" | "component_presence") {
+                extra.push(("C07", *o, format!("[client authorised after connecting] {d}")));
+            }
+            if injected_run && !sim.clients[c].ever_injected {
+                extra.push(("C06", "honest_client_not_served", format!("[after malformed input from another client] {d}")));
+            }
+        }
+        v.extend(extra);
     }
 
     // ---- C05: history check over the event log
